@@ -123,6 +123,14 @@ def grid_cases():
                 else:
                     ast = ["bin", op, E.lit(a), y]
                 yield ("bin", op, order), ast, {"x": a, "y": b}
+    # ints beyond the float range: Python raises OverflowError for int / int and int (op) float there - not a zero division
+    huge = [10 ** 400, -10 ** 400, 2 ** 1024]
+    partners = [3, -7, 3.0, 0.5, 0, 0.0, 1e308, True]
+    for op in ("+", "-", "*", "/", "//", "%", "<", ">="):
+        for a, b in itertools.product(huge, partners):
+            yield ("bin", op, "huge-left"), ["bin", op, x, y], {"x": a, "y": b}
+            yield ("bin", op, "huge-right"), ["bin", op, x, y], {"x": b, "y": a}
+            yield ("bin", op, "huge-lit"), ["bin", op, x, E.lit(b)], {"x": a, "y": 0}
     for op in E.UNOPS:
         for a in CONT_PALETTE:
             yield ("un", op, "ref"), ["un", op, x], {"x": a, "y": 0}
@@ -185,7 +193,8 @@ def inplace_case(op, defined, operand_kind, va, vb, vk):
     c = E.loc("d", ("i", "c"))
     old_ast = None
     if defined:
-        old_ast = ["bin", "*", b, E.lit(2)]
+        # 'alias': the current definition is a bare ref (a = b), the smallest expression there is
+        old_ast = b if defined == "alias" else ["bin", "*", b, E.lit(2)]
         refs["d"]["a"] = E.build(old_ast, refs)
     if operand_kind == "number":
         operand_ast = E.lit(vk)
@@ -219,7 +228,14 @@ def inplace_case(op, defined, operand_kind, va, vb, vk):
         refs["d"]["a"] = tmp
         return roots["d"]["a"]
 
+    old_obj = roots["d"]["a"]
+    old_snapshot = copy.deepcopy(old_obj) if isinstance(old_obj, np.ndarray) else None
     real = outcome(real_stmt)
+    if old_snapshot is not None and not defined and not E.same(old_obj, old_snapshot):
+        # `ref op= x` is `ref = ref.__iop__(x)`: a NEW value is assigned, the old object must not be mutated
+        return Failure(f"C04:inplace:{op}:old-value-mutated",
+                       {"stmt": f"d['a'] {op}= {E.render(operand_ast)}", "before": E.show(old_snapshot),
+                        "after": E.show(old_obj)}), {"inplace": f"d['a'] {op}= ..."}
     rep = {"inplace": f"d['a'] {op}= {E.render(operand_ast)}", "defined_as": E.render(old_ast) if old_ast else None,
            "a": E.show(va), "b": E.show(vb), "c": E.show(vk), "python": show_out(want)}
     bad = compare(real, want)
@@ -268,9 +284,9 @@ def inplace_cases():
             pal_a = [np.array([[1.0, 2.0], [3.0, 4.0]]), 3]
             pal_k = [np.array([1.0, -1.0]), 2]
         else:
-            pal_a = pal
+            pal_a = pal + ([np.array([1.0, -2.0, 0.5]), np.array([3, 0, -1])] if op in ("+", "-", "*", "/") else [])
             pal_k = [0, 1, 3, -2, True, 0.5, 2.0] if op in ("**", "<<", ">>") else pal
-        for defined in (False, True):
+        for defined in (False, True, "alias"):
             for operand_kind in ("number", "expr"):
                 for va in pal_a:
                     for vk in pal_k:
@@ -292,7 +308,7 @@ def run_inplace(ctx):
             ctx.stats.excluded["inplace: numpy value left of a ref"] += 1
             continue
         f, rep = inplace_case(op, defined, okind, va, vb, vk)
-        ctx.stats.case(rep, True, classes=[f"inplace:{op}:{'defined' if defined else 'plain'}:{okind}"])
+        ctx.stats.case(rep, True, classes=[f"inplace:{op}:{('alias' if defined == 'alias' else 'defined') if defined else 'plain'}:{okind}"])
         if f:
             ctx.fail(f, {"kind": "inplace", "op": op, "defined": defined, "operand": okind,
                          "va": E.enc(va), "vb": E.enc(vb), "vk": E.enc(vk)})
